@@ -536,7 +536,12 @@ htp_status_t htp_connp_REQ_BODY_CHUNKED_LENGTH(htp_connp_t *connp) {
             } else if (connp->in_chunked_length == 0) {
                 // End of data. The decompressors hand out what they still
                 // hold now: the trailer comes after the body.
-                if (connp->req_decompressor != NULL) {
+                // (only when this body is being decoded: a decompressor may be
+                // left over from an earlier request that announced a coding and
+                // had no body)
+                if ((connp->req_decompressor != NULL) &&
+                    (connp->in_tx->request_content_encoding != HTP_COMPRESSION_NONE) &&
+                    (connp->in_tx->request_content_encoding != HTP_COMPRESSION_UNKNOWN)) {
                     htp_status_t rc = htp_tx_req_process_body_data_ex(connp->in_tx, NULL, 0);
                     if (rc != HTP_OK) return rc;
                 }
